@@ -92,10 +92,13 @@ def type_union(types: t.Iterable[type]) -> type:
     return functools.reduce(operator.or_, types)
 
 
+_UNION_ORIGINS = (t.Union, getattr(types, 'UnionType', t.Union))  # typing.Union and PEP 604 `A | B`
+
+
 def flatten_union_args(types: t.Iterable[T]) -> t.Iterator[T]:
     """Flatten nested unions, returning a single sequence of possible union types."""
     for ty in types:
-        if t.get_origin(ty) is t.Union:
+        if t.get_origin(ty) in _UNION_ORIGINS:
             yield from flatten_union_args(t.get_args(ty))
         else:
             yield ty
